@@ -281,7 +281,8 @@ def los_rules(ck, rule, D, P, roots):
           f"matches {hit}" if hit else "value is none of the roots of  L^3 - 3aL - 2r = 0 with -2r/3 = G(maxL) - bracket*u4",
           sides={"code": P.show(val)[:400]})
     # physical root: 2 sqrt(a) cos(phi) <= sqrt(a)  <=>  cos(phi) in [-1/2, 1/2]
-    coss = [n for n in walk([inner]) if is_ext_call(n, "numpy.cos") and n.fn is not None and n.fn.qualname == func]
+    coss = [n for n in walk([inner]) if is_ext_call(n, "numpy.cos") and n.fn is not None and n.fn.module.name.endswith("region_geometry")
+            and n.id >= getattr(D, "first_throw_node", 0)]
     rf = RangeFacet(I)
     ok_phys = False
     detail = f"{len(coss)} cosine factor(s)"
@@ -291,7 +292,8 @@ def los_rules(ck, rule, D, P, roots):
         detail = f"cosine factor of the chosen root ranges over {iv!r}"
     ck.ob(rule, "the chosen root is the one that cannot exceed the horizon distance (cosine factor in [-1/2, 1/2])",
           ok_phys, inner, func, detail)
-    acs = [n for n in walk([inner]) if is_ext_call(n, "numpy.arccos") and n.fn is not None and n.fn.qualname == func]
+    acs = [n for n in walk([inner]) if is_ext_call(n, "numpy.arccos") and n.fn is not None and n.fn.module.name.endswith("region_geometry")
+           and n.id >= getattr(D, "first_throw_node", 0)]
     ok_arg = bool(acs) and all(strip_clip(a.args[1]) is not None and
                                _is_const(strip_clip(a.args[1])[1], -1) and _is_const(strip_clip(a.args[1])[2], 1)
                                for a in acs)
